@@ -89,7 +89,8 @@ class C06Layout(Scenario):
                 return {"op": "remove", "k": x, "n": rng.between(1, min(self.out[x], 3))}
             n = rng.weighted([(6, 1), (2, 2), (1, 40)])
             if rng.chance(1, 10):  # drive cells to their storage limit: the layout rule includes the pinning
-                n = rng.choice((2**32 - 1, 2**31, 2**32 + 7) if kind == "cbloom" else (2**31 - 1, 2**31 + 9, 2**30))
+                n = rng.choice((2**32 - 1, 2**31, 2**32 + 7) if kind == "cbloom" else (2**31 - 1, 2**31 + 9, 2**30, 2**54 + 1,
+                                                                                      2**60 + 12345, 2**62))
             return {"op": "add", "k": k, "n": n}
         if kind in ("expanding", "rotating"):
             if r < 20:
